@@ -96,6 +96,8 @@ type Enc struct {
 	inlineStack []*ssa.Function
 	bounds      strings.Builder
 	mapPoints   map[string][]ssa.Value
+	mute        int  // >0: obligations are not emitted (auxiliary encodings)
+	orderMode   bool // unpinned call results are functions of their arguments
 	pointLoop   *LoopInfo
 	pointFrame  *Frame
 	mergeOf     map[string]mergeInfo // merged heap constant -> the alternatives it was built from
@@ -152,6 +154,7 @@ type Frame struct {
 	parent   *Frame
 	recovered bool
 	inPanicSim bool
+	orderExec bool
 	recoveredVal string
 	private  []*Loc // non-escaping local cells: untouched by callees
 	privateAllocs []*ssa.Alloc
@@ -540,7 +543,7 @@ func (e *Enc) oblName(base string) string {
 }
 
 func (e *Enc) addObl(kind, detail, reach, cond string, pos token.Pos, src string, props []string) *Obligation {
-	if e.dry {
+	if e.dry || e.mute > 0 {
 		return nil
 	}
 	fnName := e.P.fnDisplay(e.fn)
@@ -562,7 +565,7 @@ func (e *Enc) addObl(kind, detail, reach, cond string, pos token.Pos, src string
 }
 
 func (e *Enc) addReach(detail, reach string, pos token.Pos) {
-	if e.dry {
+	if e.dry || e.mute > 0 {
 		return
 	}
 	fnName := e.P.fnDisplay(e.fn)
@@ -644,7 +647,7 @@ func (e *Enc) freshLike(hv string) string {
 // the same program point; the members are discharged one by one only if the
 // conjunction does not discharge (to name the failing member).
 func (e *Enc) addGroup(kind, detail, reach string, names, conds []string, pos token.Pos, src string, props []string) {
-	if e.dry || len(conds) == 0 {
+	if e.dry || e.mute > 0 || len(conds) == 0 {
 		return
 	}
 	if len(conds) == 1 {
